@@ -379,6 +379,9 @@ def hyp_failures(plan, base, a):
         ren = {info["old"]: new}
         if sorted(es) != sorted(es0) or any(subgraph(es0, t, ren) != subgraph(es, t) for t in es0):
             f.append("the patch changed the IR beyond the rename / extra_derives")
+        # the patch derives reach the patched entry ONLY (an entry whose name merely resembles the patched name is not patched)
+        other = [i for i in es if i in es0 and i != info["id"] and es0[i].get("name") != info["old"] and sorted(es[i].get("extra_derives") or []) != sorted(es0[i].get("extra_derives") or [])]
+        if other: f.append("the extra_derives of entry %s (%s) changed although only %s is patched" % (other[0], es[other[0]].get("name"), info["old"]))
     return f
 
 # ------------------------------------------------------------------------------------------ the property on the real output
